@@ -135,6 +135,18 @@ def run(tier):
     r1 = core.run_tlc_sharded("Overlap.tla", "Overlap.cfg", [strip(bad)], shards=1, prefix="st-ov")
     r0 = core.run_tlc_sharded("Overlap.tla", "Overlap.cfg", [strip(base)], shards=1, prefix="st-ov")
     expect("C09 same literal two targets", bool(r1.tagged("MISMATCH")), not r0.tagged("MISMATCH"), results)
+    # C03 mechanism: a recorded trace of do_minimize with one event altered is not a behaviour of Hopcroft.tla
+    from props import c03
+    recs = core.record("compile", [corpus.finish(gen.case([("seq", [("alt", [("seq", [L("a"), L("b")]), ("seq", [L("a"), L("c")])]), ("many", ("opt", L("d"))), L("e")])], [], shell="bash"), 1)])
+
+    def drop_split(cases):
+        for c in cases:
+            k = [i for i, e in enumerate(c["events"]) if e["ev"] == "split"]
+            if k:
+                del c["events"][k[0]]
+    good = c03.trace_validation(recs, "quick")
+    bad = c03.trace_validation(recs, "quick", corrupt=drop_split)
+    expect("C03 hook trace with a split dropped", bad.get("traces_not_a_behaviour", 0) >= 1, good.get("traces_not_a_behaviour", 1) == 0 and good.get("traces", 0) >= 1, results)
     failed = [r for r in results if not r[1]]
     print("selftest: %d of %d corruptions detected with their untouched twins accepted" % (len(results) - len(failed), len(results)))
     return 2 if failed else 0
